@@ -21,7 +21,8 @@ def build(tier, seed):
         k = c09.traversal_kernel(tier, ('edges', 'block'))
         k.harnesses = [h for h in k.harnesses if h.name.startswith('blocklisted_') or h.name in ('edges_Comp', 'edges_Alias', 'edges_TemplateInstantiation', 'edges_Opaque', 'edges_Array')]
         for h in k.harnesses:
-            if h.name in ('edges_Comp', 'edges_Alias', 'blocklisted_Comp'):
+            h.tier = 'thorough'
+            if h.name in ('edges_Comp', 'edges_Alias', 'edges_Opaque'):
                 h.tier = 'quick'
         k.name = 'opaque_and_blocklisted_traversal'
         return k
